@@ -81,6 +81,7 @@ class _DispRun:
     report every invocation here"""
 
     def __init__(self, case):
+        self.case = case
         self.scripts = {}
         for row in case.get("beh", []):
             self.scripts[json.dumps(row["callee"])] = row
@@ -157,9 +158,27 @@ class _DispRun:
             cur[3].append([entry, script["ret"], n, rops, extra])
         return {"cont": DispatchReturn.CONTINUE, "interrupt": DispatchReturn.INTERRUPT, "none": None}[script["ret"]]
 
+    def churn(self, n):
+        """many other protocol instances get a dispatcher (a large simulation: one per node); this must
+        not disturb the instances of the history (the registry is unbounded, per instance)"""
+        class Other(IProtocol):
+            def initialize(self): pass
+            def handle_timer(self, timer): pass
+            def handle_packet(self, message): pass
+            def handle_telemetry(self, telemetry): pass
+            def finish(self): pass
+        self.others = []
+        for k in range(n):
+            o = Other.instantiate(RecProvider(10_000 + k))
+            create_dispatcher(o)
+            self.others.append(o)
+
     def run(self, ops):
         results = []
+        churn = self.case.get("churn")
         for i, op in enumerate(ops):
+            if churn and i == churn["at"]:
+                self.churn(churn["n"])
             name, p = op[0], op[1]
             if name == "create":
                 existed = p in self.wrappers
@@ -428,6 +447,14 @@ class C15(Check):
         for i in range(n):
             c = gen_disp(stable_hash(self.prop, seed, i), max_ops=60)
             c["label"] = f"gen/{seed}/{i}"
+            if i % 25 == 7:
+                # 150 other instances get dispatchers in the middle of the history, then the first
+                # instance asks for its dispatcher again and is dispatched once more
+                insts = sorted({op[1] for op in c["ops"]})
+                c["churn"] = {"at": len(c["ops"]), "n": 150}
+                c["ops"] = c["ops"] + [["create", insts[0]], ["dispatch", insts[0], "timer"],
+                                       ["dispatch", insts[0], "finish"]]
+                c["label"] += "/churn"
             yield c
         if tier == "thorough":
             yield from enum_disp(5, 0)
